@@ -1192,7 +1192,7 @@ const COLORS: [RGBA; 16] = [
     RGBA::new(255, 255, 255, 255),
 ];
 
-fn sgr_color<'a>(mut cmds: impl Iterator<Item = &'a [u8]>) -> Option<RGBA> {
+fn sgr_color<'a>(mut cmds: impl Iterator<Item = &'a [u8]>, colon: bool) -> Option<RGBA> {
     match number_decode(cmds.next()?)? {
         5 => {
             // color from 256 color palette
@@ -1217,14 +1217,21 @@ fn sgr_color<'a>(mut cmds: impl Iterator<Item = &'a [u8]>) -> Option<RGBA> {
         2 => {
             // true color
             //
-            // It can contain either three or four components
-            // in the case of four first component is ignored
-            match [
+            // Colon separated form `38:2:<cs>:r:g:b` can contain either three or four
+            // components in the case of four first component (color space) is ignored.
+            // Semicolon separated form `38;2;r;g;b` is always three components, parameters
+            // that follow belong to the next attribute.
+            let components = [
                 cmds.next().and_then(number_decode),
                 cmds.next().and_then(number_decode),
                 cmds.next().and_then(number_decode),
-                cmds.next().and_then(number_decode),
-            ] {
+                if colon {
+                    cmds.next().and_then(number_decode)
+                } else {
+                    None
+                },
+            ];
+            match components {
                 [Some(r), Some(g), Some(b), None] | [_, Some(r), Some(g), Some(b)] => {
                     Some(RGBA::new(r as u8, g as u8, b as u8, 255))
                 }
@@ -1245,9 +1252,9 @@ fn sgr_face(data: &[u8]) -> FaceModify {
         let args_empty = args.size_hint().0 == 0;
         let mut sgr_color_thunk = || {
             if args_empty {
-                sgr_color(&mut groups)
+                sgr_color(&mut groups, false)
             } else {
-                sgr_color(&mut args)
+                sgr_color(&mut args, true)
             }
         };
         match cmd {
@@ -2146,7 +2153,7 @@ pub mod verif_hooks {
     }
 
     pub fn sgr_color<'a>(cmds: impl Iterator<Item = &'a [u8]>) -> Option<RGBA> {
-        super::sgr_color(cmds)
+        super::sgr_color(cmds, false)
     }
 
     pub fn parse_color(color: &str) -> Option<RGBA> {
